@@ -13,7 +13,9 @@ the viewer object cache describes), F2 (avatar, ObjectUpdate); local IDs 1..3 pe
 CRC 1 on the wire, CRC 2 in the viewer cache (one cache entry per local ID, so local IDs stay interchangeable).  The
 viewer cache is a chain of two per-viewer caches (``_vo_chain``): the (local, CRC 2) entry sits behind an out-of-date
 (local, CRC 3) entry of the first cache in every search ("stale-first"); profile "cache/<arrangement>" repeats the
-cached-update events with the chain fresh-first, disjoint and with equal entries in both caches.
+cached-update events with the chain fresh-first, disjoint and with equal entries in both caches.  In searches with
+cached-update events every teardown of a tracked region rewrites that region's cache file (CRC 2 <-> 4, same CacheID);
+the re-track loads the current file through the real ``load_cache()``, and the simulator announces the current CRC.
 
 Events (last element = scenario tag computed from the reference model; it names the violation site and carries the
 deviation bit):
@@ -24,7 +26,8 @@ deviation bit):
   ("K", r, l, tag)         KillObject, one block                   known|unknown|orphanholder|late
   ("KM", r, a, b, "multi") KillObject, two blocks
   ("RQ", r, l, "-") ("RP", r, l, "-")   region.objects.request_objects / request_object_properties (at most 2 pending)
-  ("TD", r, "-") ("RT", r, "-")         region.mark_dead() / open_circuit + track_region_objects + load_cache
+  ("TD", r, "-") ("RT", r, "-")         region.mark_dead() / open_circuit + track_region_objects + load_cache;
+                           ("TD", r, "limbo") = mark_dead() of an untracked region whose handle limbo objects claim
   ("TICK", "-")            0.25 virtual seconds (fires the cache-miss debounce, which calls request_objects)
   ("Kx", r, l, "defer") ("TDx", r, "defer")   KillObject / mark_dead while a request is pending, and the next event
                            happens before the loop has run the done-callbacks of the futures just cancelled
@@ -43,7 +46,8 @@ asserted about the choice itself, the model only needs *a* successor state):
   * an update that moves a known object to a region handle that is not tracked leaves a "limbo" object in the session's
     full-ID index only (tests/proxy test_object_moved_to_bad_region, "same as indra"): for limbo objects the oracle does
     not assert membership of the full-ID / avatar indices; it does require that handlers keep working on them and that
-    they are properly tracked again when an update brings them back to a tracked region;
+    they are properly tracked again when an update brings them back to a tracked region, and that they are gone
+    from every index once the region whose handle they claim is marked dead (tracked at that moment or not);
   * which update "answers" a request: a full/compressed update for (region, local) answers ``request_objects``,
     ObjectProperties(Family) for the object at (region, local) answers ``request_object_properties``; terse and cached
     updates are allowed to resolve UPDATE futures but not required to.
@@ -148,20 +152,27 @@ HANDLER = {
 VO_ARRANGEMENTS = ("stale-first", "fresh-first", "disjoint", "equal")
 
 
-def _vo_chain(arrangement: str):
+FRESH_CRC = (2, 4)      # CRC of the viewer-cache entries, by generation parity of the region's cache file
+
+
+def _vo_chain(arrangement: str, gens: List[int]):
     """The viewer object cache of a region as a chain of TWO per-viewer caches (several viewers installed).  The entry the
-    simulator's ObjectUpdateCached refers to is (local l, CRC 2) -> F1 for every local l; depending on the arrangement
+    simulator's ObjectUpdateCached refers to is (local l, CRC c) -> F1 for every local l; depending on the arrangement
     the other cache holds an out-of-date entry for the same local (CRC 3, never announced), nothing relevant, or the same
-    entry.  All four must behave alike: a (local, CRC) pair present in any cache of the chain is a hit."""
-    fresh = [ViewerObjectCacheEntry(local_id=l, crc=2, data=wh.compressed_data(wh.FULLS[1], l, 0, 2))
-             for l in range(1, NL + 1)]
-    stale = [ViewerObjectCacheEntry(local_id=l, crc=3, data=wh.compressed_data(wh.FULLS[1], l, 0, 3))
-             for l in range(1, NL + 1)]
-    other = [ViewerObjectCacheEntry(local_id=l + 6, crc=2, data=wh.compressed_data(wh.FULLS[1], l + 6, 0, 2))
-             for l in range(1, NL + 1)]
-    chain = {"stale-first": [stale, fresh], "fresh-first": [fresh, stale], "disjoint": [other, fresh],
-             "equal": [fresh, list(fresh)]}[arrangement]
-    return lambda region_index: chain
+    entry.  All four must behave alike: a (local, CRC) pair present in any cache of the chain is a hit.
+    The viewer rewrites its cache file when a region goes away: c = FRESH_CRC[generation % 2], where ``gens[region]``
+    counts the teardowns of that region (same CacheID); what is (re)loaded on a handshake is the *current* file."""
+    def chain(region_index: int):
+        crc = FRESH_CRC[gens[region_index] % 2]
+        fresh = [ViewerObjectCacheEntry(local_id=l, crc=crc, data=wh.compressed_data(wh.FULLS[1], l, 0, crc))
+                 for l in range(1, NL + 1)]
+        stale = [ViewerObjectCacheEntry(local_id=l, crc=3, data=wh.compressed_data(wh.FULLS[1], l, 0, 3))
+                 for l in range(1, NL + 1)]
+        other = [ViewerObjectCacheEntry(local_id=l + 6, crc=crc, data=wh.compressed_data(wh.FULLS[1], l + 6, 0, crc))
+                 for l in range(1, NL + 1)]
+        return {"stale-first": [stale, fresh], "fresh-first": [fresh, stale], "disjoint": [other, fresh],
+                "equal": [fresh, list(fresh)]}[arrangement]
+    return chain
 
 
 # =================================================================================================================
@@ -171,6 +182,7 @@ class Ref:
     def __init__(self, nreg: int):
         self.nreg = nreg
         self.tracked = [True] * nreg
+        self.gen = [0] * nreg                         # generation (parity) of the region's viewer cache file
         self.objs: Dict[int, Dict[str, int]] = {}     # full -> {r, l, p, crc}   live objects in tracked regions
         self.limbo: Dict[int, Dict[str, int]] = {}    # full -> {r, l, p}        moved to an untracked region handle
         self.hi = [0] * nreg                          # highest local ID mentioned so far, per region
@@ -266,8 +278,10 @@ class Ref:
         exp["must_done"] = [(r, l, "future-cancelled-on-kill") for l in dict.fromkeys(visited)]
         return exp
 
-    def teardown(self, r: int):
+    def teardown(self, r: int, rewrite_cache: bool = False):
         self.touched[r] = True
+        if self.tracked[r] and rewrite_cache:
+            self.gen[r] = (self.gen[r] + 1) % 2       # the viewer writes the region's cache file out again
         self.tracked[r] = False
         for f in [f for f, o in self.objs.items() if o["r"] == r]:
             del self.objs[f]
@@ -277,14 +291,14 @@ class Ref:
     def canon(self):
         return (tuple(self.tracked), tuple(sorted((f, tuple(sorted(o.items()))) for f, o in self.objs.items())),
                 tuple(sorted((f, tuple(sorted(o.items()))) for f, o in self.limbo.items())),
-                tuple(self.hi), tuple(self.touched))
+                tuple(self.hi), tuple(self.touched), tuple(self.gen))
 
 
 # =================================================================================================================
 class World:
     def __init__(self, nreg: int, vo: str = "stale-first"):
-        self.lw = wh.build_world(nreg, _vo_chain(vo), SETTINGS)
         self.ref = Ref(nreg)
+        self.lw = wh.build_world(nreg, _vo_chain(vo, self.ref.gen), SETTINGS)
         self.futs: List[Dict[str, Any]] = []       # futures handed to the harness by request_* (still pending)
         self.loop_excs: List[BaseException] = []
         self.lw.loop.set_exception_handler(lambda loop, ctx: self.loop_excs.append(ctx.get("exception")
@@ -328,6 +342,8 @@ class Harness:
         base, _, vo = profile.partition("/")
         self.vo = vo or "stale-first"
         self.kinds = PROFILES[base]
+        # searches without cached-update events keep one cache generation (it could not be observed there)
+        self.rewrites_cache = "C" in self.kinds
 
     def fresh(self) -> World:
         return World(self.nreg, self.vo)
@@ -363,7 +379,7 @@ class Harness:
                 for l in range(1, top + 1):
                     holder = m.at(r, l)
                     evs.append(("T", r, l, "known" if holder is not None else "unknown"))
-                    for crc in (1, 2):
+                    for crc in (1, FRESH_CRC[m.gen[r]]):
                         tag = self._cached_tag(m, r, l, crc)
                         if tag is not None:
                             evs.append(("C", r, l, crc, tag))
@@ -392,6 +408,10 @@ class Harness:
                         for p in range(0, ptop + 1):
                             if p != l:
                                 evs.append(("A", r, f, l, p, "late"))
+                if any(o["r"] == r for o in m.limbo.values()):
+                    # mark_dead() for a region that is registered but not (or no longer) tracked while objects claim
+                    # its handle: they go away with it
+                    evs.append(("TD", r, "limbo"))
                 evs.append(("T", r, 1, "late"))
                 evs.append(("C", r, 1, 1, "late"))
                 evs.append(("K", r, 1, "late"))
@@ -417,7 +437,7 @@ class Harness:
             return "hit"
         if crc == 1:
             return "miss" if holder is None else "miss-stale"
-        # crc 2: the viewer cache says local l is F1
+        # the CRC of the current cache file: the viewer cache says local l is F1
         if holder not in (None, 1) or m.limbo_holds(r, l, 1):
             return None         # would hand a live local ID to a second full ID
         if holder == 1:
@@ -453,7 +473,7 @@ class Harness:
                 _, r, l, crc, _ = ev
                 wh.deliver(lw, lw.regions[r], wh.wire("ObjectUpdateCached", wh.HANDLES[r], l, crc))
                 if tag.startswith("vohit"):
-                    exp = m.announce(r, 1, l, 0, 2)
+                    exp = m.announce(r, 1, l, 0, crc)
                     exp.pop("answered", None)     # a cache probe is not the reply to RequestMultipleObjects
                 else:
                     m.mention(r, l)
@@ -487,7 +507,7 @@ class Harness:
             elif kind in ("TD", "TDx"):
                 _, r, _ = ev
                 lw.regions[r].mark_dead()
-                m.teardown(r)
+                m.teardown(r, rewrite_cache=self.rewrites_cache)
             elif kind == "RT":
                 _, r, _ = ev
                 wh.connect_region(lw, lw.regions[r])
